@@ -120,9 +120,12 @@ class DnsRecordDnskey(ParsableBase, Serializable):
         key_parser.parse_mpint('x', key_size)
         key_parser.parse_mpint('y', key_size)
 
-        return PublicKey.from_params(PublicKeyParamsEcdsa(
-            point_x=key_parser['x'], point_y=key_parser['y'], named_group=named_group,
-        ))
+        try:
+            return PublicKey.from_params(PublicKeyParamsEcdsa(
+                point_x=key_parser['x'], point_y=key_parser['y'], named_group=named_group,
+            ))
+        except ValueError as e:
+            six.raise_from(InvalidValue(key_parser['x'], cls, 'key'), e)
 
     @classmethod
     def _parse_public_key_eddsa(cls, dnssec_algorithm, key_parser):
@@ -159,6 +162,9 @@ class DnsRecordDnskey(ParsableBase, Serializable):
     @classmethod
     def parse_key(cls, parsable, dnssec_algorithm):
         key_parser = ParserBinary(parsable)
+
+        if not isinstance(dnssec_algorithm.value.algorithm, Signature):
+            raise InvalidValue(dnssec_algorithm, cls, 'algorithm')
 
         public_key_type = dnssec_algorithm.value.algorithm.value.key_type
         if public_key_type == Authentication.RSA:
